@@ -490,6 +490,11 @@ class SourceCatalog:
         for attr in init_attr:
             setattr(newcls, attr, getattr(self, attr))
 
+        # the new catalog must not share these mutable containers with
+        # self (e.g., add_extra_property appends to the list in-place)
+        newcls._extra_properties = self._extra_properties.copy()
+        newcls.meta = self.meta.copy()
+
         # _labels determines ordering and isscalar
         attr = '_labels'
         setattr(newcls, attr, getattr(self, attr)[index])
